@@ -108,6 +108,10 @@ def parse_bindings(text):
 
 def make_annotation(p):
     import numpy as np, jaxtyping, typing
+    if "pytree" in p:
+        import impl_pytree
+        lt = impl_pytree.build_leaf(p["pytree"]["leaf"])
+        return jaxtyping.PyTree[lt] if p["pytree"].get("structure") is None else jaxtyping.PyTree[lt, p["pytree"]["structure"]]
     if "union" in p:
         return typing.Union[tuple(getattr(jaxtyping, p["cat"])[np.ndarray, d] for d in p["union"])]
     return getattr(jaxtyping, p["cat"])[np.ndarray, p["dim"]]
@@ -115,6 +119,8 @@ def make_annotation(p):
 
 def check_value(val, p):
     import numpy as np, jaxtyping
+    if "pytree" in p:
+        return isinstance(val, make_annotation(p))
     dims = p["union"] if "union" in p else [p["dim"]]
     return any(isinstance(val, getattr(jaxtyping, p["cat"])[np.ndarray, d]) for d in dims)
 
@@ -130,6 +136,10 @@ def run_error_case(case):
     by = {p["name"]: p for p in case["params"]}
     ints = case.get("ints", {})
     vals.update(ints)
+    for p in case["params"]:
+        if "pytree" in p:
+            import impl_pytree
+            vals[p["name"]] = impl_pytree.build_value(p["value"])
     for var in case["variants"]:
         live = []
         orig = _storage.shape_str
@@ -144,6 +154,9 @@ def run_error_case(case):
             ann = {n: make_annotation(by[n]) for n in order}
             ret = case.get("ret")
             retv = np.zeros(tuple(case["ret_shape"]), dtype=case.get("ret_dtype", "float32")) if ret else None
+            if ret and "pytree" in ret:
+                import impl_pytree
+                retv = impl_pytree.build_value(ret["value"])
             src = "def fname(%s):\n    return RET\n" % ", ".join(list(ints) + order)
             g = {"RET": retv}
             exec(src, g)
@@ -164,6 +177,21 @@ def run_error_case(case):
                 r.update(parse_message(str(e)))
                 la, ls = parse_bindings(live[-1] if live else "")
                 r["live"], r["live_structs"] = la, ls
+                # oracle for "exactly the bindings in force when the failure was detected, none taken from the check that
+                # failed": what a fresh context holds after the checks that PASSED before the failure (all parameters for a
+                # return failure, the predecessors of the blamed parameter otherwise)
+                try:
+                    with jaxtyped("context"):
+                        _storage.get_shape_memo()[3].update(vals)
+                        okall = True
+                        for n in order:
+                            if r["stage"] == "params" and n == r["blamed"]:
+                                break
+                            okall = okall and check_value(vals[n], by[n])
+                        ea, es = parse_bindings(orig(_storage.get_shape_memo()))
+                    r["expected_axes"], r["expected_structs"], r["expected_valid"] = ea, es, bool(okall) and (r["stage"] == "return" or r["blamed"] in by)
+                except Exception as e2:  # noqa
+                    r["expected_valid"] = False
                 # oracle: the blamed parameter fails after its predecessors pass, in a fresh context
                 if r["blamed"] is not None and r["blamed"] in by:
                     with jaxtyped("context"):
@@ -216,7 +244,11 @@ def prelude():
            lambda: isinstance((1, FaultyNode(Boom("flatten"))), PyTree[Float[np.ndarray, "a"], "T"]),
            lambda: isinstance((1, FaultyNode(RuntimeError("flatten"))), PyTree[int]),
            lambda: isinstance((np.zeros((3,), "float32"),), PyTree[Float[np.ndarray, "dim+1"], "S"]),
-           lambda: isinstance((1, FaultyNode(RuntimeError("flatten"))), PyTree[int])]
+           lambda: isinstance((1, FaultyNode(RuntimeError("flatten"))), PyTree[int]),
+           # flatten itself fails inside JAX: unsortable dictionary keys
+           lambda: isinstance({1: np.zeros((3,), "float32"), "one": np.zeros((3,), "float32")}, PyTree[Float[np.ndarray, "a"]]),
+           lambda: isinstance((np.zeros((2,), "float32"), FaultyNode(KeyboardInterrupt())), PyTree[Float[np.ndarray, "a"]]),
+           lambda: isinstance([FaultyNode(GeneratorExit())], PyTree[PyTree[Float[np.ndarray, "a"]]])]
     for o in ops:
         for ctx in (False, True):
             try:
